@@ -4,6 +4,7 @@ package connectconformance
 
 import (
 	"context"
+	"errors"
 	"sort"
 	"sync"
 	"syscall"
@@ -30,7 +31,12 @@ type VerifOSClientObs struct {
 	Wait      string   `json:"wait"` // nil | error | hang
 	Hang      bool     `json:"hang"` // a send or waitForResponses did not return within the timeout
 	IsRunning bool     `json:"isRunning"`
-	ElapsedMs int64    `json:"elapsedMs"`
+	// CbRunning: completion callbacks that reported the failure of the client's output stream (an
+	// error other than errNoOutcome) while isRunning(), sampled inside the callback, was still true
+	CbRunning int `json:"cbRunning"`
+	// RunAtDone: isRunning() was still true when the output reader had finished after such a failure
+	RunAtDone bool  `json:"runAtDone"`
+	ElapsedMs int64 `json:"elapsedMs"`
 }
 
 func VerifOSClient(spec VerifOSClientSpec) VerifOSClientObs {
@@ -52,6 +58,16 @@ func VerifOSClient(spec VerifOSClientSpec) VerifOSClientObs {
 	}
 	defer func() { go runner.stop() }()
 	var mu sync.Mutex
+	if cr, ok := runner.(*clientProcessRunner); ok {
+		go func() {
+			<-cr.done
+			if e := cr.err.Load(); e != nil && *e != nil && !errors.Is(*e, errClosed) && runner.isRunning() {
+				mu.Lock()
+				obs.RunAtDone = true
+				mu.Unlock()
+			}
+		}()
+	}
 	done := make(chan struct{})
 	go func() {
 		defer close(done)
@@ -61,9 +77,13 @@ func VerifOSClient(spec VerifOSClientSpec) VerifOSClientObs {
 				req.ServerTlsCert = make([]byte, spec.BigBytes)
 			}
 			i := i
-			err := runner.sendRequest(req, func(string, *conformancev1.ClientCompatResponse, error) {
+			err := runner.sendRequest(req, func(_ string, _ *conformancev1.ClientCompatResponse, cbErr error) {
+				stillRunning := cbErr != nil && !errors.Is(cbErr, errNoOutcome) && runner.isRunning()
 				mu.Lock()
 				obs.Cbs[i]++
+				if stillRunning {
+					obs.CbRunning++
+				}
 				mu.Unlock()
 			})
 			mu.Lock()
@@ -93,6 +113,10 @@ func VerifOSClient(spec VerifOSClientSpec) VerifOSClientObs {
 			obs.Wait = "hang"
 		}
 		mu.Unlock()
+	}
+	// the process-exit notification (whenDone) runs in its own goroutine: give it time
+	for deadline := time.Now().Add(2 * time.Second); runner.isRunning() && time.Now().Before(deadline); {
+		time.Sleep(time.Millisecond)
 	}
 	mu.Lock()
 	defer mu.Unlock()
